@@ -226,6 +226,11 @@ func c14Gen(r *RNG, id string) *Case {
 	var genes []gene
 	for i := 0; i < r.Range(1, 5); i++ {
 		if g, ok := randGene(r, L, i, true); ok {
+			if r.Chance(1, 6) {
+				// a fusion product: '+' is an ordinary character of a name in both annotation formats
+				g.name += r.PickStr([]string{"+pol", "+", "+b+c"})
+				c.Tag("plus-in-feature-name")
+			}
 			genes = append(genes, g)
 		}
 	}
